@@ -43,7 +43,8 @@ def variants(name):
     out.append(('upper-case', name.upper()))
     out.append(('capitalised', name[0].upper() + name[1:]))
     out.append(('doubled', name + name))
-    return out
+    # a decoration that leaves the name as it is (capitalising '3des-cbc') is no decoration
+    return [(label, v) for label, v in out if v != name]
 
 
 def tasks(tier='quick'):
